@@ -27,7 +27,8 @@ class TSPProblem(CircuitProblem):
         n = len(cost_rows)
         super().__init__(n)
         max_costs = [max(cost_row) for cost_row in cost_rows]
-        min_costs = [min([cost for cost in cost_row if cost > 0]) for cost_row in cost_rows]
+        # the diagonal is skipped by position: a null cost between two distinct vertices is legal
+        min_costs = [min([cost for j, cost in enumerate(cost_row) if j != i]) for i, cost_row in enumerate(cost_rows)]
         start = self.add_variables([(min_costs[i], max_costs[i]) for i in range(n)])  # the costs
         self.add_variable((sum(min_costs), sum(max_costs)))  # the total cost
         for i in range(n):
